@@ -607,6 +607,9 @@ def rule_final_snapshot_order(ctx, rule='R08.10'):
 
 
 def run(ctx):
+    from . import edges
+    edges.rule_last_done_is_last(ctx, 'R08.11')      # the step size integrate() restores is the user's
+    edges.rule_time_direction(ctx, 'R08.12')         # time may be negative and may run backwards: collision times and t = 0
     rule_save_restore(ctx)
     rule_final_snapshot_order(ctx)
     from . import c01
